@@ -627,7 +627,8 @@ def build_objects(doc: Doc, style: str = "xtce"):
         return adjuster
 
     def mk_lookup(length: Lookup):
-        return [comparisons.DiscreteLookup([mk_cmp(c) for c in crit], float(v)) for crit, v in length.entries]
+        import numpy as np
+        return [comparisons.DiscreteLookup([mk_cmp(c) for c in crit], (np.float64(v) if i % 2 else float(v))) for i, (crit, v) in enumerate(length.entries)]
 
     def mk_enc(enc, pt: PType):
         if isinstance(enc, IntEnc):
@@ -678,9 +679,21 @@ def build_objects(doc: Doc, style: str = "xtce"):
                 from mc.ref.interp import codec_for
                 enum = {str(v).encode(codec_for(pt.enc)): lab for v, lab in pt.enum}
             elif isinstance(pt.enc, FloatEnc):
-                enum = {float(v): lab for v, lab in pt.enum}
+                # numbers as a caller has them: plain, or (every other type, by its name) numpy scalars
+                import numpy as np
+                enum = {(np.float64(v) if len(pt.name) % 2 else float(v)): lab for v, lab in pt.enum}
             else:
-                enum = {int(v): lab for v, lab in pt.enum}
+                # ... plain ints, numpy integers, or the members of an IntEnum (in rotation by the type's name)
+                import enum as _enum
+                import numpy as np
+                how = len(pt.name) % 3
+                if how == 1:
+                    enum = {np.int64(v): lab for v, lab in pt.enum}
+                elif how == 2:
+                    members = _enum.IntEnum("Raw_" + "".join(ch for ch in pt.name if ch.isalnum()), {f"V{i}": int(v) for i, (v, _) in enumerate(pt.enum)})
+                    enum = {members[f"V{i}"]: lab for i, (v, lab) in enumerate(pt.enum)}
+                else:
+                    enum = {int(v): lab for v, lab in pt.enum}
             ptypes[pt.name] = cls(pt.name, enc, enumeration=enum, unit=pt.unit)
         elif pt.kind in ("AbsoluteTime", "RelativeTime"):
             terms = []
